@@ -1,8 +1,8 @@
 CONSTANTS
   MaxAttrs = 2
   MaxKids = 2
-  AttrKinds = {"call", "member", "class", "onClick", "spread", "objlit", "on", "dir", "vmodel", "trivial"}
-  KidKinds = {"call", "member", "trivial", "text", "elem", "comp"}
+  AttrKinds = {"call", "class", "onClick", "spread", "on", "dir", "vmodel", "trivial"}
+  KidKinds = {"call", "member", "trivial", "text", "elem", "comp", "direlem"}
   OptCombos = {"TTT", "FFF"}
   AttrKinds3 = {"call", "class", "onClick", "spread", "on"}
   KidKinds3 = {"call"}
